@@ -700,6 +700,7 @@ type sqlStmt struct {
 	table           string
 	cols            []string // INSERT column list / SELECT projection / CREATE columns
 	pk              string   // CREATE: primary key column
+	pkCollate       string   // CREATE: COLLATE clause of the primary key column ("" = the default, BINARY)
 	whereCol        string
 	wherePH         bool
 	values          int // number of placeholders in VALUES
@@ -889,6 +890,11 @@ func parseSQL(text string) sqlStmt {
 					for k := 0; k+1 < len(def); k++ {
 						if strings.ToUpper(def[k]) == "PRIMARY" && strings.ToUpper(def[k+1]) == "KEY" {
 							st.pk = def[0]
+							for j := 0; j+1 < len(def); j++ {
+								if strings.ToUpper(def[j]) == "COLLATE" {
+									st.pkCollate = strings.ToUpper(def[j+1])
+								}
+							}
 						}
 					}
 				}
@@ -1020,6 +1026,10 @@ func ruleOneStatement(w *World, r *Run, rule string) {
 	default:
 		r.Pass(rule, key, upsert.pos, "")
 	}
+	// the key column compares byte for byte: log IDs are opaque, case-sensitive strings everywhere else (the witness's
+	// map of logs, the in-memory store, the HTTP routes), so a collation that identifies different IDs files two logs
+	// under one row
+	r.Check(create.st.pkCollate == "" || create.st.pkCollate == "BINARY", rule, "CREATE TABLE | the key column compares log IDs byte for byte", create.pos, fmt.Sprintf("the primary key column %s is declared COLLATE %s: two log IDs that differ only in what that collation ignores share one row, so a checkpoint of one log is stored under and served for the other", create.st.pk, create.st.pkCollate))
 	if len(u.cols) < 2 {
 		return
 	}
